@@ -25,12 +25,13 @@ import (
 
 func init() {
 	register(&Prop{ID: "C13", Run: c13Run,
-		Rule: "every case executes one operation through pipeline.New(WithData(doc)).Execute on a generated data document (<= 4 levels, key pool of 6 path-safe keys). set: payload maps x target paths (existing leaf / container / list / list item, absent below a container, absent below a leaf, fresh, empty = root) x strategy {unset, merge, replace, unknown} x nil payload; template: literal / {{ .key }} / failing / YAML-of-a-tree templates x parseAs {unset, none, yaml, unknown} x trim; patch: RFC 6902 ops with pointers derived from the document's own paths, value / valueFrom / from; import: text / binary over random byte strings (incl. invalid UTF-8, empty), yaml / json / properties over encoded subtrees, missing file, unknown mode, empty path; roundtrip: export of a container (or the whole document) as yaml / json re-imported at a fresh path; export: every format (incl. unknown) x target kind (nil path, absent, leaf, list, container, via value and via ref); env: synthetic process environment (os.Clearenv + Setenv, restored afterwards) x include / exclude regex pools; lenient: strings without '{{', with unbalanced braces, failing and working templates. A case is non-trivial when the data document has at least two nodes and the operation's outcome is not an argument error; distinct = distinct canonical case JSON (hash).",
+		Rule: "every case executes one operation through pipeline.New(WithData(doc)).Execute on a generated data document (<= 4 levels, key pool of 6 path-safe keys). set: payload maps x target paths (existing leaf / container / list / list item, absent below a container, absent below a leaf, fresh, empty = root) x strategy {unset, merge, replace, unknown} x nil payload; template: literal / {{ .key }} / failing / YAML-of-a-tree templates x parseAs {unset, none, yaml, unknown} x trim; patch: RFC 6902 ops with pointers derived from the document's own paths, value / valueFrom / from; import: text / binary over random byte strings (incl. invalid UTF-8, empty), yaml / json / properties over encoded subtrees, missing file, unknown mode, empty path; roundtrip: export of a container (or the whole document) as yaml / json re-imported at a fresh path; export: every format (incl. unknown) x target kind (nil path, absent, leaf, list, container, via value and via ref); env: synthetic process environment (os.Clearenv + Setenv, restored afterwards) x include / exclude regex pools; lenient: strings without '{{', with unbalanced braces, failing and working templates; rerun (histories): ONE operation object decoded from pipeline YAML (export with path / file given as immediate value or as {ref: leaf}; set / patch / template / import / env with path, file and template fields partly written as templates over data leaves) is executed 2-4 times through one executor while edits between the executions remove the referenced leaf, turn it into a container / list / other scalar, point it elsewhere, change or remove the target, rewrite or unlink the imported files - every execution is judged on the data of that moment (export: documented rule with path and file resolved on the wire document, only the file named at that moment is touched, model exportOp / resolve; all kinds: same outcome, document and files as a fresh operation object decoded from the same YAML on an equal document). A case is non-trivial when the data document has at least two nodes and the operation's outcome is not an argument error (a history: at least two executions with different data); distinct = distinct canonical case JSON (hash).",
 		Assumptions: []string{
 			"keys and path segments are over [A-Za-z0-9_-] (index groups only where a list item is addressed); scalars are NaN-free and -0-free",
 			"text/template + sprig, yaml.v3, encoding/json, magiconair/properties, regexp and the OS are parameters of the model: the harness feeds the model the renderer's / parser's / decoder's / matcher's actual results for the same inputs",
 			"list-item targets address an existing item or the position one past the end (no null padding of intermediate slots is counted as a frame change)",
-			"environment variable names are over [A-Za-z0-9_] (a dot or index group in a name is interpreted by AddValueAt as path syntax)"}})
+			"environment variable names are over [A-Za-z0-9_] (a dot or index group in a name is interpreted by AddValueAt as path syntax)",
+			"histories: a re-executed patch operation carries a leaf `value` or `valueFrom` (a composite `value` node is held by the operation object and placed without copying, so two executions would share it); export histories use template-free configuration and files inside the case's own directory"}})
 	evals["C13"] = c13Eval
 	shrinkers["C13"] = shrinkJSON
 }
@@ -567,6 +568,7 @@ func c13Run(c *Ctx) {
 			c.Do("export", c13Export{Data: data, Format: f, ViaRef: true, Path: "cont"})
 		}
 	}
+	c13RunRerun(c)
 }
 
 // ------------------------------------------------------------------ evaluation
@@ -656,6 +658,8 @@ func c13Eval(c *Ctx, kind string, raw []byte) {
 		c13EvalEnv(c, raw)
 	case "lenient":
 		c13EvalLenient(c, raw)
+	case "rerun":
+		c13EvalRerun(c, raw)
 	}
 }
 
@@ -1346,6 +1350,106 @@ func c13EvalRound(c *Ctx, raw []byte) {
 	c.Direct("frame: paths not under the target unchanged", fr, map[string]any{"why": why, "after": after})
 }
 
+func c13KnownFormat(f string) bool {
+	return f == "yaml" || f == "json" || f == "properties" || f == "text"
+}
+
+// c13ExportRule: the documented rule of ExportOp for one execution, evaluated on the implementation's
+// outcome alone.  kindOf / target: what the (resolved) path addresses in the data at the time of
+// the execution, taken from the wire document; cannotOpen: the (resolved) file cannot be opened;
+// exists / opened / content: the state of that file afterwards.
+func c13ExportRule(c *Ctx, format, kindOf string, target W, cannotOpen bool, tag, txt string, exists, opened bool, content []byte, det func(any) any) {
+	if det == nil {
+		det = func(v any) any { return v }
+	}
+	switch {
+	case !c13KnownFormat(format):
+		c.Direct("export-unknown-format-is-error-before-any-file-is-opened", tag == "err" && !opened, det(map[string]any{"tag": tag, "file-touched": opened}))
+	case cannotOpen:
+		c.Direct("export-unopenable-file-is-error", tag == "err", det(map[string]any{"tag": tag, "text": txt}))
+	case format == "text":
+		switch kindOf {
+		case "absent":
+			c.Direct("export-text-absent-writes-default(empty)", tag == "ok" && exists && len(content) == 0, det(map[string]any{"tag": tag, "content": string(content)}))
+		case "leaf":
+			want := target.(map[string]any)["v"].(string) // fmt.Sprint of the value == %v
+			c.Direct("export-text-leaf-writes-%v", tag == "ok" && exists && string(content) == want, det(map[string]any{"tag": tag, "content": string(content), "want": want}))
+		default:
+			c.Direct("export-text-non-leaf-is-error", tag == "err", det(map[string]any{"tag": tag, "text": txt}))
+		}
+	default:
+		if kindOf != "cont" {
+			want := map[string]string{"yaml": "{}\n", "json": "{}\n", "properties": ""}[format]
+			c.Direct("export-wrong-kind-or-unresolved-writes-documented-default(empty document)", tag == "ok" && exists && string(content) == want,
+				det(map[string]any{"tag": tag, "content": string(content), "want": want, "target": kindOf}))
+		} else if format != "properties" {
+			norm, err := c13Normalise(format, wirePlain(target))
+			back, err2 := map[string]any(nil), error(nil)
+			if format == "yaml" {
+				err2 = yaml.Unmarshal(content, &back)
+			} else {
+				err2 = json.Unmarshal(content, &back)
+			}
+			if back == nil {
+				back = map[string]any{}
+			}
+			if err == nil {
+				c.Direct("export-container-writes-the-subtree", tag == "ok" && err2 == nil && canon(plainWire(back)) == canon(plainWire(norm)),
+					det(map[string]any{"tag": tag, "content": string(content)}))
+			}
+		} else {
+			c.Direct("export-no-error", tag == "ok", det(txt))
+		}
+	}
+}
+
+// c13ExportModel compares one execution of ExportOp with the model's exportOp on the data at that
+// time: error flag, whether the file was opened, and the bytes (what the model hands to the
+// encoder, encoded by the real encoder).
+func c13ExportModel(c *Ctx, data W, format string, pathArg any, canOpen bool, tag string, exists, opened bool, content []byte, det func(any) any) {
+	if det == nil {
+		det = func(v any) any { return v }
+	}
+	m, _ := c.Model("export", map[string]any{"data": data, "format": format, "path": pathArg, "canOpen": canOpen}).(map[string]any)
+	implObs := map[string]any{"err": tag == "err", "opened": opened}
+	modelObs := map[string]any{"err": nil, "opened": nil}
+	if m != nil {
+		modelObs = map[string]any{"err": m["err"], "opened": m["opened"]}
+		if wr, ok := m["written"].(map[string]any); ok && exists {
+			var buf bytes.Buffer
+			if d, ok := wr["doc"]; ok {
+				var enc dom.EncoderFunc
+				switch format {
+				case "yaml":
+					enc = dom.DefaultYamlEncoder
+				case "json":
+					enc = dom.DefaultJsonEncoder
+				case "properties":
+					enc = props.EncoderFn
+				}
+				if enc != nil {
+					_ = enc(&buf, wirePlain(d))
+				}
+			} else if t, ok := wr["text"].(string); ok {
+				buf.WriteString(t)
+			}
+			a, b := string(content), buf.String()
+			if format == "properties" { // Go map order: compare the lines as a set
+				a, b = c13SortLines(a), c13SortLines(b)
+			}
+			implObs["content"] = a
+			modelObs["content"] = b
+		}
+	}
+	c.Corr("exportOp", det(implObs), det(modelObs))
+}
+
+func c13SortLines(s string) string {
+	l := strings.Split(s, "\n")
+	sort.Strings(l)
+	return strings.Join(l, "\n")
+}
+
 func c13EvalExport(c *Ctx, raw []byte) {
 	var p c13Export
 	if err := json.Unmarshal(raw, &p); err != nil {
@@ -1410,85 +1514,12 @@ func c13EvalExport(c *Ctx, raw []byte) {
 	exists := rerr == nil
 	// opened: the export touched the file (a pre-existing target still holding its old content was not opened)
 	opened := exists && !(!p.BadDir && p.Pre && string(content) == c13Stale)
-	knownFmt := p.Format == "yaml" || p.Format == "json" || p.Format == "properties" || p.Format == "text"
-	if knownFmt && !p.BadDir && c13NodeCount(p.Data) >= 2 {
+	if c13KnownFormat(p.Format) && !p.BadDir && c13NodeCount(p.Data) >= 2 {
 		c.Nontrivial()
 	}
-	switch {
-	case !knownFmt:
-		c.Direct("export-unknown-format-is-error-before-any-file-is-opened", tag == "err" && !opened, map[string]any{"tag": tag, "file-touched": opened})
-	case p.BadDir:
-		c.Direct("export-unopenable-file-is-error", tag == "err", tag)
-	case p.Format == "text":
-		switch kindOf {
-		case "absent":
-			c.Direct("export-text-absent-writes-default(empty)", tag == "ok" && exists && len(content) == 0, map[string]any{"tag": tag, "content": string(content)})
-		case "leaf":
-			want := target.(map[string]any)["v"].(string) // fmt.Sprint of the value == %v
-			c.Direct("export-text-leaf-writes-%v", tag == "ok" && exists && string(content) == want, map[string]any{"tag": tag, "content": string(content), "want": want})
-		default:
-			c.Direct("export-text-non-leaf-is-error", tag == "err", tag)
-		}
-	default:
-		if kindOf != "cont" {
-			want := map[string]string{"yaml": "{}\n", "json": "{}\n", "properties": ""}[p.Format]
-			c.Direct("export-wrong-kind-or-unresolved-writes-documented-default(empty document)", tag == "ok" && exists && string(content) == want,
-				map[string]any{"tag": tag, "content": string(content), "want": want, "target": kindOf})
-		} else if p.Format != "properties" {
-			norm, err := c13Normalise(p.Format, wirePlain(target))
-			back, err2 := map[string]any(nil), error(nil)
-			if p.Format == "yaml" {
-				err2 = yaml.Unmarshal(content, &back)
-			} else {
-				err2 = json.Unmarshal(content, &back)
-			}
-			if back == nil {
-				back = map[string]any{}
-			}
-			if err == nil {
-				c.Direct("export-container-writes-the-subtree", tag == "ok" && err2 == nil && canon(plainWire(back)) == canon(plainWire(norm)),
-					map[string]any{"tag": tag, "content": string(content)})
-			}
-		} else {
-			c.Direct("export-no-error", tag == "ok", txt)
-		}
-	}
+	c13ExportRule(c, p.Format, kindOf, target, p.BadDir, tag, txt, exists, opened, content, nil)
 	// model: decision and what is handed to the encoder; the encoder itself is the real one
-	m, _ := c.Model("export", map[string]any{"data": data, "format": p.Format, "path": pathArg, "canOpen": !p.BadDir}).(map[string]any)
-	implObs := map[string]any{"err": tag == "err", "opened": opened}
-	modelObs := map[string]any{"err": nil, "opened": nil}
-	if m != nil {
-		modelObs = map[string]any{"err": m["err"], "opened": m["opened"]}
-		if wr, ok := m["written"].(map[string]any); ok && exists {
-			var buf bytes.Buffer
-			if d, ok := wr["doc"]; ok {
-				var enc dom.EncoderFunc
-				switch p.Format {
-				case "yaml":
-					enc = dom.DefaultYamlEncoder
-				case "json":
-					enc = dom.DefaultJsonEncoder
-				case "properties":
-					enc = props.EncoderFn
-				}
-				if enc != nil {
-					_ = enc(&buf, wirePlain(d))
-				}
-			} else if t, ok := wr["text"].(string); ok {
-				buf.WriteString(t)
-			}
-			a, b := string(content), buf.String()
-			if p.Format == "properties" { // Go map order: compare the lines as a set
-				la, lb := strings.Split(a, "\n"), strings.Split(b, "\n")
-				sort.Strings(la)
-				sort.Strings(lb)
-				a, b = strings.Join(la, "\n"), strings.Join(lb, "\n")
-			}
-			implObs["content"] = a
-			modelObs["content"] = b
-		}
-	}
-	c.Corr("exportOp", implObs, modelObs)
+	c13ExportModel(c, data, p.Format, pathArg, !p.BadDir, tag, exists, opened, content, nil)
 	md := c.Model("decision", map[string]any{"format": p.Format, "target": kindOf})
 	implDec := "?"
 	switch {
